@@ -19,8 +19,8 @@ EXTENDS BufGen
 
 CONSTANT DesignMutation   \* "none" | "limit_keeps" (Limit::advance_mut forgets `limit -= cnt`) | "put_whole_chunk" (seeded C11-B)
 
-VARIABLES dt, badlaws, nops
-svars == <<stack, phase, tree0, tree, ops, nleaf, dt, badlaws, nops>>
+VARIABLES dt, badlaws, nops, pred
+svars == <<stack, phase, tree0, tree, ops, nleaf, dt, badlaws, nops, pred>>
 
 Grow == 64     \* BytesMut / Vec: chunk_mut() on a full buffer reserves 64 bytes
 
@@ -111,14 +111,20 @@ LawSrc(s) == IF s.k = "leaf" THEN [k |-> "leaf", ty |-> s.ty, limit |-> 0, d |->
              ELSE s
 Ev(op, m, n, val, d, v16, src, out, res, t2) ==
   [i |-> nops + 1, op |-> op, path |-> <<>>, m |-> m, n |-> n, val |-> val, out |-> out, res |-> res, d |-> d, v16 |-> v16,
-   src |-> LawSrc(src), tree |-> SProj(t2)]
+   src |-> LawSrc(src), gsrc |-> src, tree |-> SProj(t2)]
+SrcOf(e) == e.gsrc
 
-Check(e) == LET R == MutStep(SProj(dt), e) IN badlaws' = badlaws \cup R.V
+\* the law monitor judges the design's step; the program and the predicted observation are
+\* recorded for bindings G and D (printed by SEmit, compared with the real sinks step by step)
+Check(e) == LET R == MutStep(SProj(dt), e) IN
+  /\ badlaws' = badlaws \cup R.V
+  /\ ops' = Append(ops, OpRec(e.op, e.m, e.n, <<>>, e.d, e.v16, 77, IF e.op = "put_buf" THEN SrcOf(e) ELSE NoSrc))
+  /\ pred' = Append(pred, [out |-> e.out, n |-> e.res.n, tree |-> e.tree])
 
 SStart ==
   /\ phase = "build" /\ Len(stack) = 1
   /\ phase' = "ops" /\ tree0' = stack[1] /\ tree' = stack[1] /\ dt' = stack[1]
-  /\ UNCHANGED <<stack, ops, nleaf, badlaws, nops>>
+  /\ UNCHANGED <<stack, ops, nleaf, badlaws, nops, pred>>
 
 Outcome(r) == IF r.ok THEN "ok" ELSE "panic"
 
@@ -144,14 +150,18 @@ SOp ==
                    ELSE PutChunks(dt, SrcChunks(src))
           IN Check(Ev("put_buf", "", 0, 0, <<>>, <<>>, src, Outcome(r), Res0, r.t)) /\ dt' = r.t
   /\ nops' = nops + 1
-  /\ UNCHANGED <<stack, phase, tree0, tree, ops, nleaf>>
+  /\ UNCHANGED <<stack, phase, tree0, tree, nleaf>>
 
-SInit == Init /\ dt = [k |-> "none"] /\ badlaws = {} /\ nops = 0
-SNext == \/ (PushLeaf /\ UNCHANGED <<dt, badlaws, nops>>)
-         \/ (MkChain /\ UNCHANGED <<dt, badlaws, nops>>)
-         \/ (MkLimit /\ UNCHANGED <<dt, badlaws, nops>>)
-         \/ (MkWrap /\ UNCHANGED <<dt, badlaws, nops>>)
+SInit == Init /\ dt = [k |-> "none"] /\ badlaws = {} /\ nops = 0 /\ pred = <<>>
+SNext == \/ (PushLeaf /\ UNCHANGED <<dt, badlaws, nops, pred>>)
+         \/ (MkChain /\ UNCHANGED <<dt, badlaws, nops, pred>>)
+         \/ (MkLimit /\ UNCHANGED <<dt, badlaws, nops, pred>>)
+         \/ (MkWrap /\ UNCHANGED <<dt, badlaws, nops, pred>>)
          \/ SStart \/ SOp
+
+\* INVARIANT that never fails: prints finished programs with the design's predictions
+SEmit == (Emit /\ phase = "ops" /\ nops = MaxOps /\ RandomElement(1..SampleK) = 1) =>
+           PrintT(<<"REPLAY", ToJson([side |-> "mut", tree |-> tree0, ops |-> ops, pred |-> pred])>>)
 
 LawsAccept == badlaws = {}
 =============================================================================
